@@ -349,6 +349,9 @@ def assignOne (cs : Classes) (h : Heap) (dest arg v : Val) : Except MErr Heap :=
      | .ref a, .str n =>
        (match h[a]? with
         | some (.inst c as) => .ok (h.set a (.inst c (setAssoc n v as)))
+        -- an instance of a set subclass with a `__dict__`: setattr succeeds; the kernel's set
+        -- cells carry no attribute dict, so nothing visible changes (stated limitation)
+        | some (.set c _) => if (clsInfo cs c).hasDict then .ok h else .error (.assign "AttributeError")
         | _ => .error (.assign "AttributeError"))
      | _, .str _ => .error (.assign "AttributeError")
      | _, _ => .error (.assign "TypeError"))
